@@ -1,7 +1,7 @@
 import ExaModel.Model.Index
 set_option linter.unusedSimpArgs false
-/-! Helper lemmas for M-Index: the family prefix is a fixed-length injective code, and the
-    case analysis on the ADD-PATH sentinels. -/
+/-! Helper lemmas for M-Index: the family prefix is a fixed-length injective code, the ADD-PATH
+    tags are a prefix-free code. -/
 namespace Exa.Index
 open Exa
 
@@ -55,121 +55,6 @@ theorem wf_iff (a : IpNlri) (h : wf a = true) : WF a := by
   · intro hk; rw [hk] at h7
     simpa using h7
 
-/-- The tail `[m] ++ rd ++ pfx` determines its parts once the RD lengths agree. -/
-theorem tail_inj {m m' : Nat} {r r' p p' : Bytes} (hl : r.length = r'.length)
-    (h : [m] ++ r ++ p = [m'] ++ r' ++ p') : m = m' ∧ r = r' ∧ p = p' := by
-  simp only [List.cons_append, List.nil_append, List.cons.injEq] at h
-  have := List.append_inj h.2 hl
-  exact ⟨h.1, this.1, this.2⟩
-
-/-- Two ADD-PATH tags followed by anything: equal tags, unless one of the ambiguous path-ids is
-    involved. This is the whole content of the sentinel analysis. -/
-theorem pathTag_split {p q : Option Bytes} {x y : Bytes}
-    (hp : ∀ b, p = some b → b.length = 4) (hq : ∀ b, q = some b → b.length = 4)
-    (hpd : p ≠ some disa) (hqd : q ≠ some disa) (hpn : p ≠ some nop) (hqn : q ≠ some nop)
-    (h : pathTag p ++ x = pathTag q ++ y) : p = q ∧ x = y := by
-  cases p with
-  | none =>
-    cases q with
-    | none => exact ⟨rfl, List.append_cancel_left h⟩
-    | some b =>
-      exfalso
-      have hb := hq b rfl
-      match b, hb with
-      | [b0, b1, b2, b3], _ =>
-        simp only [pathTag] at h
-        split at h
-        · simp [disabled, nopi] at h
-        · simp only [disabled, List.cons_append, List.nil_append, List.cons.injEq] at h
-          obtain ⟨h0, h1, h2, h3, _⟩ := h
-          apply hqd; simp [disa, ← h0, ← h1, ← h2, ← h3]
-  | some a =>
-    have ha := hp a rfl
-    cases q with
-    | none =>
-      exfalso
-      match a, ha with
-      | [a0, a1, a2, a3], _ =>
-        simp only [pathTag] at h
-        split at h
-        · simp [disabled, nopi] at h
-        · simp only [disabled, List.cons_append, List.nil_append, List.cons.injEq] at h
-          obtain ⟨h0, h1, h2, h3, _⟩ := h
-          apply hpd; simp [disa, h0, h1, h2, h3]
-    | some b =>
-      have hb := hq b rfl
-      match a, ha, b, hb with
-      | [a0, a1, a2, a3], _, [b0, b1, b2, b3], _ =>
-        simp only [pathTag] at h
-        split at h <;> split at h
-        · rename_i e1 e2
-          rw [e1, e2]; exact ⟨rfl, List.append_cancel_left h⟩
-        · rename_i e1 e2
-          exfalso
-          simp only [nopi, List.cons_append, List.nil_append, List.cons.injEq] at h
-          obtain ⟨h0, h1, h2, h3, _⟩ := h
-          apply hqn; simp [nop, ← h0, ← h1, ← h2, ← h3]
-        · rename_i e1 e2
-          exfalso
-          simp only [nopi, List.cons_append, List.nil_append, List.cons.injEq] at h
-          obtain ⟨h0, h1, h2, h3, _⟩ := h
-          apply hpn; simp [nop, h0, h1, h2, h3]
-        · simp only [List.cons_append, List.nil_append, List.cons.injEq] at h
-          obtain ⟨h0, h1, h2, h3, h4⟩ := h
-          subst h0 h1 h2 h3
-          exact ⟨rfl, h4⟩
-
-/-- When both masks bytes are below `b'b'` (98) no sentinel can be mistaken for a path-id followed
-    by a mask byte (`disabled`[4] = 98, `no-pi`[4] = 105): the IPv4 case. -/
-theorem pathTag_split_small {p q : Option Bytes} {m m' : Nat} {x y : Bytes}
-    (hp : ∀ b, p = some b → b.length = 4) (hq : ∀ b, q = some b → b.length = 4)
-    (hm : m < 98) (hm' : m' < 98)
-    (h : pathTag p ++ (m :: x) = pathTag q ++ (m' :: y)) : p = q ∧ m :: x = m' :: y := by
-  cases p with
-  | none =>
-    cases q with
-    | none => exact ⟨rfl, List.append_cancel_left h⟩
-    | some b =>
-      exfalso
-      have hb := hq b rfl
-      match b, hb with
-      | [b0, b1, b2, b3], _ =>
-        simp only [pathTag] at h
-        split at h
-        · simp [disabled, nopi] at h
-        · simp only [disabled, List.cons_append, List.nil_append, List.cons.injEq] at h
-          omega
-  | some a =>
-    have ha := hp a rfl
-    cases q with
-    | none =>
-      exfalso
-      match a, ha with
-      | [a0, a1, a2, a3], _ =>
-        simp only [pathTag] at h
-        split at h
-        · simp [disabled, nopi] at h
-        · simp only [disabled, List.cons_append, List.nil_append, List.cons.injEq] at h
-          omega
-    | some b =>
-      have hb := hq b rfl
-      match a, ha, b, hb with
-      | [a0, a1, a2, a3], _, [b0, b1, b2, b3], _ =>
-        simp only [pathTag] at h
-        split at h <;> split at h
-        · rename_i e1 e2
-          rw [e1, e2]; exact ⟨rfl, List.append_cancel_left h⟩
-        · exfalso
-          simp only [nopi, List.cons_append, List.nil_append, List.cons.injEq] at h
-          omega
-        · exfalso
-          simp only [nopi, List.cons_append, List.nil_append, List.cons.injEq] at h
-          omega
-        · simp only [List.cons_append, List.nil_append, List.cons.injEq] at h
-          obtain ⟨h0, h1, h2, h3, h4⟩ := h
-          subst h0 h1 h2 h3
-          exact ⟨rfl, by rw [h4.1, h4.2]⟩
-
 theorem optBytes_length_eq {r r' : Option Bytes} (hr : ∀ b, r = some b → b.length = 8)
     (hr' : ∀ b, r' = some b → b.length = 8) (h : r.isSome = r'.isSome) :
     (optBytes r).length = (optBytes r').length := by
@@ -177,5 +62,58 @@ theorem optBytes_length_eq {r r' : Option Bytes} (hr : ∀ b, r = some b → b.l
 
 theorem optBytes_inj {r r' : Option Bytes} (h : r.isSome = r'.isSome) (he : optBytes r = optBytes r') : r = r' := by
   cases r <;> cases r' <;> simp_all [optBytes]
+
+theorem key_ext {a b : IpNlri} (h1 : a.afi = b.afi) (h2 : a.safi = b.safi) (h3 : a.path = b.path)
+    (h4 : a.mask = b.mask) (h5 : a.pfx = b.pfx) (h6 : a.rd = b.rd) : key a = key b := by
+  simp [key, h1, h2, h3, h4, h5, h6]
+
+/-- Under the guard the three class-specific formulas are the one formula `indexU`. -/
+theorem index_eq_uniform (a : IpNlri) (ha : WF a) : index a = indexU a := by
+  unfold index indexU
+  cases hk : a.kind with
+  | inet =>
+    have ia := ha.inet hk
+    have hf : rdFlag a = [] := by simp [rdFlag, hk]
+    simp only [packed, rdBits, hf, ia.1, ia.2, optBytes]
+    cases hp : a.path <;> simp [pathTag, optBytes]
+  | label =>
+    have ra := ha.label hk
+    have hf : rdFlag a = [] := by simp [rdFlag, hk]
+    simp [rdBits, hf, ra, optBytes]
+  | vpn =>
+    have hf : rdFlag a = [if a.rd.isSome then 1 else 0] := by simp [rdFlag, hk]
+    simp [hf]
+
+/-- The tags are a prefix-free code. -/
+theorem pathTag_split {k : Kind} {p q : Option Bytes} {x y : Bytes}
+    (hp : ∀ b, p = some b → b.length = 4) (hq : ∀ b, q = some b → b.length = 4)
+    (h : pathTag k p ++ x = pathTag k q ++ y) : p = q ∧ x = y := by
+  cases p with
+  | none =>
+    cases q with
+    | none => exact ⟨rfl, List.append_cancel_left h⟩
+    | some b =>
+      exfalso
+      simp only [pathTag] at h
+      split at h <;> simp [disabled, nopi, pathWord] at h
+  | some a =>
+    have ha := hp a rfl
+    cases q with
+    | none =>
+      exfalso
+      simp only [pathTag] at h
+      split at h <;> simp [disabled, nopi, pathWord] at h
+    | some b =>
+      have hb := hq b rfl
+      simp only [pathTag] at h
+      split at h <;> split at h
+      · rename_i e1 e2
+        rw [e1.2, e2.2]; exact ⟨rfl, List.append_cancel_left h⟩
+      · exfalso; simp [nopi, pathWord] at h
+      · exfalso; simp [nopi, pathWord] at h
+      · simp only [List.append_assoc] at h
+        have h1 := List.append_cancel_left h
+        have h2 := List.append_inj h1 (by omega)
+        exact ⟨by rw [h2.1], h2.2⟩
 
 end Exa.Index
